@@ -29,6 +29,9 @@ D0 == Description(Raw(lines, <<10>>))
 EolInsignificant == Description(Raw(lines, <<13, 10>>)) = D0 /\ Description(Raw(lines, <<13>>)) = D0
 IndentInsignificant == HasText(lines) => \A ind \in {<<32, 32>>, <<9>>} : Description(Raw(Indented(lines, ind), <<10>>)) = D0
 FrameInsignificant == HasText(lines) => Description(Framed(lines, <<10>>)) = D0
+\* a line of blanks is an empty line: blanks written on an empty line (trailing blanks) do not change the text
+Blanked(ls, w) == [i \in 1..Len(ls) |-> IF ls[i] = <<>> THEN w ELSE ls[i]]
+BlankLinesInsignificant == HasText(lines) => \A w \in {<<32>>, <<9>>, <<32, 32, 32>>} : Description(Raw(Blanked(lines, w), <<10>>)) = D0
 AlwaysOK == D0.ok
 
 Emit == HasText(lines') => PrintT("E " \o ToJson([lines |-> lines', text |-> Description(Raw(lines', <<10>>)).text]))
